@@ -52,7 +52,10 @@ NEUTRAL_GROUPS = {"R1": ("C01", "C02", "C05", "C13"), "R2": ("C03", "C04", "C12"
                   "R4": ("C08", "C11", "C07", "C19"), "R5": ("C09", "C10", "C15", "C18"),
                   # second set, written against other functions of the same anchors
                   "Q1": ("C01", "C02", "C05", "C14"), "Q2": ("C03", "C04", "C06", "C12"), "Q3": ("C09", "C16", "C17", "C10"),
-                  "Q4": ("C11", "C07", "C08", "C19", "C20"), "Q5": ("C15", "C18", "C13")}
+                  "Q4": ("C11", "C07", "C08", "C19", "C20"), "Q5": ("C15", "C18", "C13"),
+                  # third set, written against the functions the round-4 rules look at
+                  "S1": ("C01", "C02", "C05"), "S2": ("C03", "C06", "C12", "C13", "C14"), "S3": ("C08", "C11", "C16", "C19"),
+                  "S4": ("C09", "C10", "C15", "C18"), "S5": ("C04", "C07", "C17", "C20")}
 
 
 def corpus(prop):
